@@ -690,6 +690,8 @@ def run(P, R, tier):
     shape_gate(P, R, b)
     query_callers(P, R, xq, b)
     no_flag_keyed_exit(P, R, b)
+    # the prerequisite test is bitset_h_andnot(needed, present)
+    rules.bitset_primitives(P, R, 'C06.TAB.3')
     type_range(P, R)
     # the address reaches the services whole: its text buffer holds the longest address the printer can produce
     from . import c12
